@@ -1324,8 +1324,21 @@ def _run(ctx, sim):
     t_drive = time.time()
     results = []
     hung = 0
+    global HANG_S
     for c in cases:
         res = drive(sim, cls, c)
+        if res["error"] and res["error"].startswith("hang"):
+            # the verdict "does not come back" is a wall-clock verdict: on a loaded machine the loop thread may simply not
+            # have been scheduled yet.  Drive the same operation list once more, with five times the patience, before believing it
+            keep = HANG_S
+            HANG_S = 5 * keep
+            try:
+                res2 = drive(sim, cls, c)
+            finally:
+                HANG_S = keep
+            if not (res2["error"] and res2["error"].startswith("hang")):
+                res = res2
+                ctx.count("hang-verdict-withdrawn-on-retry")
         results.append(res)
         if res["error"] and res["error"].startswith("hang"):
             hung += 1
